@@ -212,6 +212,30 @@ def repetitions(ck):
             ck.case(len(results), ("R", f, sep))
 
 
+def long_tokens(ck):
+    """single tokens far longer than anything the enumeration reaches - 40 bytes to 70 KB of one name, keyword, number,
+    string, hex string or comment - alone at the end of the input, followed by more input, and placed so that they
+    straddle the 4096-byte buffer; small, default and whole-input buffers.  The C14 predicates on the real tokenizer."""
+    kinds = {"name": lambda n: b"/" + b"N" * n, "name#": lambda n: b"/" + b"N" * n + b"#41", "kw": lambda n: b"k" * n,
+             "num": lambda n: b"1" * min(n, 4000), "real": lambda n: b"1" * min(n, 300) + b"." + b"5" * min(n, 300),
+             "hex": lambda n: b"<" + b"41" * n + b">", "lit": lambda n: b"(" + b"a" * n + b")", "lit(": lambda n: b"(" + b"a(b)" * (n // 4) + b")",
+             "comment": lambda n: b"%" + b"c" * n + b"\n"}
+    sizes = (40, 300, 5000, 70000) if ck.tier == "quick" else (28, 40, 300, 5000, 70000, 300000)
+    for kind, mk in kinds.items():
+        for n in sizes:
+            tok = mk(n)
+            inputs = [("eof", tok), ("more", tok + b" 1 /x"), ("unterminated", tok[:-1]) ]
+            if len(tok) < 4000:
+                pad = b" " * (4096 - len(tok) // 2)
+                inputs.append(("straddle", pad + tok + b" 1"))
+            for where, data in inputs:
+                bufs = [64, 4096, len(data) + 1] + ([7] if len(data) <= 6000 else [500])
+                results = {B: real_tokens(data, B) for B in bufs}
+                check_real(ck, data, results, origin="long:%s:%d:%s" % (kind, n, where))
+                ck.case(len(results), ("L", kind, n, where))
+                breaker()
+
+
 def direction_b(ck, dev):
     rng = random.Random(ck.seed)
     inputs = []
@@ -447,6 +471,7 @@ def _run(ck):
     direction_a(ck, dev)
     direction_b(ck, dev)
     repetitions(ck)
+    long_tokens(ck)
     direction_api(ck, dev)
     ck.exhaustive = True
 
